@@ -384,7 +384,8 @@ class Check:
             by_sig = {}
             for name, exe, v in cand:
                 by_sig.setdefault(v.get("violation"), []).append((name, exe, v))
-            os.makedirs(os.path.join(VERIF, "replays"), exist_ok=True)
+            repdir = os.environ.get("VERIF_REPLAY_DIR") or os.path.join(VERIF, "replays")
+            os.makedirs(repdir, exist_ok=True)
             for sig, lst in sorted(by_sig.items()):
                 name, exe, v = lst[0]
                 mini = err = None
@@ -402,7 +403,7 @@ class Check:
                 if kf:
                     known_hits[msig] = kf[0][1]
                     continue
-                path = os.path.join(VERIF, "replays", "%s-%s-%s.json" % (self.prop, mini.get("seed"), hashlib.sha1(json.dumps(mini, sort_keys=True).encode()).hexdigest()[:10]))
+                path = os.path.join(repdir, "%s-%s-%s.json" % (self.prop, mini.get("seed"), hashlib.sha1(json.dumps(mini, sort_keys=True).encode()).hexdigest()[:10]))
                 json.dump(mini, open(path, "w"), indent=1)
                 violations.append((msig, path, (mini.get("detail") or "")[:400]))
             dirty = B.repo_is_dirty_guard() != dirty_before
@@ -441,8 +442,9 @@ class Check:
             "wall_s": round(wall, 1),
             "violations": len(violations),
         }
-        os.makedirs(os.path.join(VERIF, "evidence"), exist_ok=True)
-        with open(os.path.join(VERIF, "evidence", self.prop + ".json"), "w") as f:
+        evdir = os.environ.get("VERIF_EVIDENCE_DIR") or os.path.join(VERIF, "evidence")   # override: trial runs against seeded changes
+        os.makedirs(evdir, exist_ok=True)
+        with open(os.path.join(evdir, self.prop + ".json"), "w") as f:
             json.dump(ev, f, indent=1, default=str)
         print("%s %s: %d runs, %d distinct nontrivial, %.0fs wall, sim %.0fs, faults=%s" % (
             self.prop, tier, agg["runs"], len(agg["hashes"]), wall, agg["sim_ns"] / 1e9, agg["faults"]))
